@@ -75,6 +75,22 @@ Theorem c15_source_finished_copies_pdu : forall s a b,
 Proof. exact source_finished_copies_pdu. Qed.
 Print Assumptions c15_source_finished_copies_pdu.
 
+(* sender, unacknowledged mode (F21 repair): the transaction the sender cancels ends with its EOF (cancel) PDU;
+   the user gets Transaction-Finished (that condition, data incomplete, file status unreported, no fault location)
+   exactly when the switch is on, after the EOF-Sent indication (the log grows at its head), the EOF (cancel) PDU
+   is queued with the checksum over the bytes sent so far, and the handler is idle *)
+Theorem c15_source_cancel_unacked_reports : forall s a b cond ck,
+  sc_mode (q_conf (s_p s)) = UNACKED -> q_tid (s_p s) = Some (a, b) ->
+  (q_cond_eof (s_p s) = None \/ q_cond_eof (s_p s) = Some C_NO_ERROR) ->
+  snd (checksum_calculation (q_progress (s_p s)) s) = Ok ck ->
+  exists s', notice_of_cancellation_s cond s = (s', Ok true) /\
+    log_s s' = (if l_ind_fin (s_cfg s) then [EvFinished a b cond DATA_INCOMPLETE FS_UNREPORTED None] else []) ++
+               (if l_ind_eof_sent (s_cfg s) then [EvEofSent a b] else []) ++ log_s s /\
+    s_queue s' = s_queue s ++ [PEof (hdr_of (q_conf (s_p s)) TOWARDS_RECEIVER) cond ck (q_progress (s_p s)) None] /\
+    s_state s' = ST_IDLE /\ s_step s' = SS_IDLE /\ s_p s' = reset_sparams.
+Proof. exact source_cancel_unacked_reports. Qed.
+Print Assumptions c15_source_cancel_unacked_reports.
+
 (* sender: the originating transaction id is surfaced unless a proxy put response is among the messages *)
 Theorem c15_originating_id : forall msgs,
   (existsb (Z.eqb 1) msgs = true -> originating_id msgs None false = None) /\
